@@ -2,8 +2,8 @@
 import ast, builtins, string as _string, itertools, os, enum, types, io
 import z3
 from .sym import *
-from .interp import PyRaise, SObj, HList, HDict, Closure, GuardedItem
-from .expr import _LazyIter, BoundBuiltin
+from .interp import PyRaise, SObj, HList, HDict, Closure, GuardedItem, Seg, has_seg
+from .expr import _LazyIter, BoundBuiltin, YSet
 
 _PURE = {len, ord, chr, abs, min, max, sum, sorted, repr, hash, format, divmod, round, hex, bin, oct, id, callable,
          hasattr, issubclass, iter, frozenset, set, list, tuple, reversed}
@@ -210,6 +210,11 @@ def _isinstance(eng, obj, cls):
 
 
 def _len(eng, a):
+    if isinstance(a, HList) and has_seg(a.items):
+        for x in a.items:
+            if isinstance(x, Seg):
+                eng.pc.append(x.length >= 0)
+        return simp(z3.Sum([x.length if isinstance(x, Seg) else z3.IntVal(1) for x in a.items]))
     if isinstance(a, HList):
         return len(a.items)
     if isinstance(a, HDict):
@@ -262,6 +267,20 @@ def method(eng, obj, name, args, kwargs):
         return _dict_method(eng, obj, name, args, kwargs)
     if isinstance(obj, SSet):
         return _sset_method(eng, obj, name, args, kwargs)
+    if isinstance(obj, YSet):
+        if name == "add":
+            if eng.wguard() is not True:
+                raise NeedFork(eng.sites(), "set.add under guard")
+            m = eng.yset_member(args[0], obj)
+            if m is True:
+                return None
+            if m is not False:
+                raise Unsupported("set.add of an element whose membership is symbolic")
+            obj.items.append((True, args[0]))
+            return None
+        if name == "copy":
+            return YSet(list(obj.items))
+        raise Unsupported(f"set.{name} on a set with symbolic elements")
     if is_strlike(obj):
         return _str_method(eng, obj, name, args, kwargs)
     if isinstance(obj, (set, frozenset)) and any(isinstance(a, SSet) for a in args):
@@ -294,7 +313,7 @@ def _list_method(eng, obj, name, args, kwargs):
         return None
     if name == "extend":
         need_unguarded()
-        obj.items.extend(eng.iterate(args[0]))
+        obj.items.extend(eng.iterate(args[0], concat=True))
         return None
     if name == "insert":
         need_unguarded()
@@ -309,6 +328,8 @@ def _list_method(eng, obj, name, args, kwargs):
         need_unguarded()
         obj.items.clear()
         return None
+    if name in ("index", "remove", "sort", "count", "pop", "insert") and has_seg(obj.items):
+        raise Unsupported(f"list.{name} on a list that holds an arbitrary segment")
     if name == "index":
         for i, x in enumerate(obj.items):
             c = eng.compare(ast.Eq(), x, args[0])
